@@ -8,6 +8,7 @@ import KikiVerif.Model.Driver
 import KikiVerif.Model.Hash
 import KikiVerif.Model.Oset
 import KikiVerif.Spec.Lex
+import KikiVerif.Proofs.Valid
 
 open KikiVerif
 
@@ -88,6 +89,45 @@ def doDrive (line : String) : String :=
           | .timeout => "(timeout)"
         Sexp.list "drive" outs
       | _, _, _ => s!"(nogen {" ".intercalate (Sexp.stop st)})"
+  | _ => "(bad-request)"
+
+/-! `valid`: run the validator on an automaton given as numbers (declaration-index codes).
+`<nT> <nN> <startSym> <startState> R <lhs>:<sym>,..;.. S <item>,..|.. A <cell>,..|.. G <cell>,..|..` -/
+
+def splitOnNE (s : String) (sep : String) : List String := (s.splitOn sep).filter (· ≠ "")
+
+def parseSym (s : String) : LR.Sym Nat Nat :=
+  if s.startsWith "t" then .t (s.drop 1).toString.toNat! else .n (s.drop 1).toString.toNat!
+
+def parseItem (s : String) : Valid.It :=
+  match s.splitOn "." with
+  | [r, d, la] => ⟨if r = "a" then none else some r.toNat!, d.toNat!, if la = "e" then none else some la.toNat!⟩
+  | _ => ⟨none, 0, none⟩
+
+def parseAct (s : String) : LR.Action :=
+  if s = "a" then .accept else if s = "e" then .err
+  else if s.startsWith "s" then .shift (s.drop 1).toString.toNat! else .reduce (s.drop 1).toString.toNat!
+
+def section_ (ws : List String) (tag : String) : String :=
+  match (ws.dropWhile (· ≠ tag)) with
+  | _ :: x :: _ => if x ∈ ["R", "S", "A", "G"] then "" else x
+  | _ => ""
+
+def doValid (line : String) : String :=
+  match words line with
+  | nT :: nN :: st :: ss :: rest =>
+    let nT := nT.toNat!; let nN := nN.toNat!
+    let rules : List (LR.Rule Nat Nat) := (splitOnNE (section_ rest "R") ";").map fun r =>
+      match r.splitOn ":" with
+      | [l, rhs] => ⟨l.toNat!, (splitOnNE rhs ",").map parseSym⟩
+      | _ => ⟨0, []⟩
+    let g : LR.Grammar Nat Nat := { rules := rules, start := st.toNat! }
+    let states := ((section_ rest "S").splitOn "|").map fun s => (splitOnNE s ",").map parseItem
+    let actions := ((section_ rest "A").splitOn "|").map fun s => (splitOnNE s ",").map parseAct
+    let gotos := ((section_ rest "G").splitOn "|").map fun s => (splitOnNE s ",").map fun c => if c = "-" then none else some c.toNat!
+    let C : Valid.Cert := { nT := nT, start := ss.toNat!, states := states, actions := actions, gotos := gotos,
+                            first := Valid.computeFirst g nT nN }
+    if Valid.validB g nN C then "(valid true)" else s!"(valid false {Sexp.hex (Valid.explain g nN C).toList})"
   | _ => "(bad-request)"
 
 /-! oset: every element type is represented as `List Nat` (order-isomorphic) -/
@@ -174,6 +214,7 @@ def main (args : List String) : IO UInt32 := do
     | ["generate"] => pure doGenerate
     | ["hash"] => pure doHash
     | ["drive"] => pure doDrive
+    | ["valid"] => pure doValid
     | ["oset"] => pure doOset
     | ["chars"] => pure doChars
     | _ => IO.eprintln "usage: kvmodel tokenize|stages|generate|hash|drive|oset|chars"; return 2
